@@ -194,7 +194,11 @@ def history_one(args):
                     def closer(j):
                         def fn():
                             try:
-                                conn.close()
+                                if (seed + k + j) % 3 == 0:
+                                    with conn:           # leaving a with-block is a close() as well
+                                        pass
+                                else:
+                                    conn.close()
                                 per_thread[j] = ('returned', None)
                             except BaseException as why:   # noqa
                                 per_thread[j] = ('raised', type(why).__name__ + ':' + repr(why)[:60])
